@@ -415,9 +415,56 @@ def check_shape_order(idx, run):
     run.floor("basis / diff_basis additions", count, 8)
 
 
+def check_stencil_size_shapes(idx, run):
+    """The caller passes the size of a stencil as a scalar, except for a
+    cross2d stencil (array of 4).  The stub decides the shape per argument;
+    a declaration made under a test of one argument's stencil type may
+    therefore only name that argument's variable, never the whole list of
+    extent variables."""
+    cls = idx.get_class("psyclone.domain.lfric.lfric_stencils.LFRicStencils")
+    func = cls.methods.get("_declare_unique_extent_vars")
+    if func is None:
+        raise AnalysisError("LFRicStencils._declare_unique_extent_vars not "
+                            "found")
+    count = 0
+
+    def visit(node, guards):
+        nonlocal count
+        for child in ast.iter_child_nodes(node):
+            sub = guards
+            if isinstance(node, ast.If) and (child in node.body or
+                                             child in node.orelse):
+                sub = guards + [node.test]
+            if isinstance(child, ast.Call) and \
+                    ast.unparse(child.func).endswith("DeclGen"):
+                count += 1
+                ent = [k.value for k in child.keywords
+                       if k.arg == "entity_decls"]
+                whole = ent and ast.unparse(ent[0]) == \
+                    "self._unique_extent_vars"
+                per_arg = [g for g in sub if "stencil" in ast.unparse(g)
+                           and "type" in ast.unparse(g)]
+                run.check(
+                    "C21.R6", not (whole and per_arg),
+                    f"LFRicStencils._declare_unique_extent_vars "
+                    f"[declaration {count}]",
+                    "a shape decided for one stencil argument is given to "
+                    "that argument's size variable only",
+                    f"under `{ast.unparse(per_arg[0])[:60] if per_arg else ''}"
+                    f"` *all* extent variables are declared with one shape: "
+                    f"a kernel with a cross2d and a cross stencil gets "
+                    f"`dimension(4) :: field_2_stencil_size, "
+                    f"field_3_stencil_size` although the caller passes a "
+                    f"scalar for the second", loc(cls.module, child))
+            visit(child, sub)
+    visit(func, [])
+    run.floor("stencil size declarations", count, 2)
+
+
 def check(idx, run):
     run.explanation = __doc__
     check_shape_order(idx, run)
+    check_stencil_size_shapes(idx, run)
     base, gen, hooks = generate_hooks(idx)
     call = idx.get_class(CALL)
     stub = idx.get_class(STUB)
